@@ -195,7 +195,7 @@ class Dataset:
             el["symmetry"] = {"system": self.system}
         return {"qha": {"input": "input01", "settings": copy.deepcopy(self.settings)},
                 "elast": {"input": "elast.dat", "settings": el},
-                "output": {"pressure_base": ["cij", "bm_VRH", "G_VRH", "v", "vs", "vp"], "volume_base": ["p"]}}
+                "output": copy.deepcopy(getattr(self, "output", None)) or {"pressure_base": ["cij", "bm_VRH", "G_VRH", "v", "vs", "vp"], "volume_base": ["p"]}}
 
     def fit_pressure_window(self, d: Path, ntv=None, margin=0.08):
         """Two-pass: run the QHA layer once to learn the reachable pressure range, then set P_MIN / DELTA_P / NTV inside it."""
